@@ -40,7 +40,9 @@ func DefaultConfig() *Config {
 			"os",
 			"net",
 		},
-		BenignGlobals: map[string]bool{"errors.errorType": true, "google.golang.org/protobuf/runtime/protoimpl.X": true},
+		BenignGlobals: map[string]bool{"errors.errorType": true, "google.golang.org/protobuf/runtime/protoimpl.X": true,
+			// zero-valued variable without initialiser
+			"github.com/buildbarn/bb-storage/pkg/auth.defaultAuthenticationMetadata": true},
 		ZeroFuncs: map[string]bool{
 			"github.com/buildbarn/bb-storage/pkg/util.DecimalExponentialBuckets": true,
 			RepoModule + "/pkg/util.GetBrowserURL":                              true, // only used in human-readable messages
